@@ -120,6 +120,9 @@ func (c Case) object(i int, prefix string, depth int, enclosingHost int) map[str
 			} else {
 				v = c.urlOf(t, prefix)
 			}
+		case "stub-url":
+			// a stub naming the target's real location (whatever id the document served there claims)
+			v = map[string]any{"id": c.urlOf(t, prefix), "type": c.Docs[t].Type}
 		case "embed":
 			if depth <= 0 {
 				v = c.urlOf(t, prefix)
@@ -354,7 +357,7 @@ func gen(t *rapid.T) Case {
 			nl := rapid.IntRange(0, 3).Draw(t, "nlinks")
 			for k := 0; k < nl; k++ {
 				d.Links = append(d.Links, Link{Key: rapid.SampledFrom(followKeys).Draw(t, "key"), Target: rapid.IntRange(0, n-1).Draw(t, "target"),
-					Shape: rapid.SampledFrom([]string{"ref", "relref", "stub", "embed", "embed", "embed-noid", "wrapped", "wrapped"}).Draw(t, "shape"), InList: rapid.Bool().Draw(t, "inlist")})
+					Shape: rapid.SampledFrom([]string{"ref", "relref", "stub", "embed", "embed", "embed-noid", "wrapped", "wrapped", "stub-url"}).Draw(t, "shape"), InList: rapid.Bool().Draw(t, "inlist")})
 			}
 		}
 		c.Docs = append(c.Docs, d)
